@@ -281,3 +281,20 @@ def _inner_graph_name(gspec: dict, node_name: str) -> str | None:
         if nd["kind"] == "graph" and nd["name"] == node_name:
             return nd["graph"].get("name")
     return None
+
+
+def with_identity(proc: Any, kind: str) -> Any:
+    """Give a processor object unusual but legal identity semantics.
+
+    ``unhashable``: defines __eq__ without __hash__ (like a plain @dataclass) -> cannot be a dict key.
+    ``equal``: all such processors compare equal and hash alike (like frozen dataclasses with equal fields).
+    """
+    if kind == "plain":
+        return proc
+    base = type(proc)
+    if kind == "unhashable":
+        cls = type(base.__name__ + "Unhashable", (base,), {"__eq__": lambda self, other: self is other, "__hash__": None})
+    else:
+        cls = type(base.__name__ + "Equal", (base,), {"__eq__": lambda self, other: isinstance(other, (SyncProc, AsyncProc)), "__hash__": lambda self: 7})
+    proc.__class__ = cls
+    return proc
